@@ -62,7 +62,7 @@ META['C06'] = {
 META['C05'] = {
     'text': 'For every function brought under contract Verus discharges, for ALL inputs, every slice/Vec index, every unwrap/expect, every machine-integer '
             '+ - *, and a decreases measure for every loop and recursion (tokenizer, list splitter, list evaluation, planning, expansion passes, job table).',
-    'note': 'regex/glob/pest calls assumed not to panic or diverge; std contracts of vstd; functions outside the units (highlighter byte slicing, '
+    'note': 'the machine stack is treated as unbounded by the termination proofs: the recursion depth of the brace parser, of the substitution pass and of the calculator is bounded through tools::nesting_depth / MAX_NESTING (under contract, with the gates in front of the three recursions; the limit itself rests on a measurement); jobc::get_job_line cuts the command text at a character boundary; regex/glob/pest calls assumed not to panic or diverge; std contracts of vstd; functions outside the units (highlighter byte slicing, '
             'completion word-start, pty layer) are not covered by proof; see evidence.bounded for stand-ins.',
 }
 
@@ -177,7 +177,7 @@ META['C07'] = {
             'the shell records that pid as the group id); the terminal is given only to the first stage of a foreground tty pipeline, never to a background one, and only if that is '
             'reported to the caller; run_proc takes the terminal back on every return path; a line is background exactly when its last token is an unquoted "&"; the job-state '
             'bookkeeping clauses shared with C06 (Stopped iff all members stopped as computed; no background event lost).',
-    'note': 'bg / fg are under contract (U-JCMD): the job found gets SIGCONT as a whole group, fg hands it the terminal, waits for all its members and takes the terminal back. '
+    'note': 'the first stage of a foreground pipeline on a terminal IS offered the terminal (converse clause; POSIX: a new pid is not an existing group id); fg / bg apply the recorded child events before they look the job up; bg / fg are under contract (U-JCMD): the job found gets SIGCONT as a whole group, fg hands it the terminal, waits for all its members and takes the terminal back. '
             '`jobs` lists the table as it is after its own poll (U-JCMD). NOT covered (outside any single-call contract): what Ctrl-C / Ctrl-Z do, report-once, the parent-side setpgid (the race it closes is outside '
             'the sequential model); kernel tty layer and tcsetpgrp success assumed.',
 }
